@@ -1994,19 +1994,79 @@ func isIterCond(t *Term) bool {
 // block whose branch condition is a phi of that block (a loop flag: `for running { ... running = false }`)
 // is left only through the successor selected by the constant that arrives over the edge taken.
 func reachesFlagAware(pred, start, target *ssa.BasicBlock) bool {
-	type edge struct{ from, to *ssa.BasicBlock }
-	seen := map[edge]bool{}
-	work := []edge{{pred, start}}
-	for len(work) > 0 {
-		e := work[len(work)-1]
-		work = work[:len(work)-1]
-		if seen[e] {
-			continue
+	// the walk carries what is known about boolean merges on the way: a flag set to a constant in one block may
+	// reach the test that reads it through a chain of merges (flag := false in a switch case, merged after the
+	// switch, merged again at the loop's head)
+	type item struct {
+		from, to *ssa.BasicBlock
+		known    map[*ssa.Phi]bool
+	}
+	fp := func(it item) string {
+		var ks []string
+		for ph, v := range it.known {
+			ks = append(ks, fmt.Sprintf("%s=%v", ph.Name(), v))
 		}
-		seen[e] = true
-		b := e.to
+		sort.Strings(ks)
+		return fmt.Sprintf("%d>%d|%s", it.from.Index, it.to.Index, strings.Join(ks, ","))
+	}
+	seen := map[string]bool{}
+	work := []item{{pred, start, map[*ssa.Phi]bool{}}}
+	for steps := 0; len(work) > 0 && steps < 20000; steps++ {
+		it := work[len(work)-1]
+		work = work[:len(work)-1]
+		if k := fp(it); seen[k] {
+			continue
+		} else {
+			seen[k] = true
+		}
+		b := it.to
 		if b == target {
 			return true
+		}
+		// the merges of b, as seen when coming in from it.from
+		known := map[*ssa.Phi]bool{}
+		for ph, v := range it.known {
+			known[ph] = v
+		}
+		edgeIdx := -1
+		for k, p := range b.Preds {
+			if p == it.from {
+				edgeIdx = k
+			}
+		}
+		var fresh []struct {
+			ph *ssa.Phi
+			v  bool
+			ok bool
+		}
+		for _, in := range b.Instrs {
+			ph, isPhi := in.(*ssa.Phi)
+			if !isPhi {
+				break
+			}
+			val, have := false, false
+			if edgeIdx >= 0 && edgeIdx < len(ph.Edges) {
+				switch e := ph.Edges[edgeIdx].(type) {
+				case *ssa.Const:
+					if e.Value != nil && e.Value.Kind() == constant.Bool {
+						val, have = constant.BoolVal(e.Value), true
+					}
+				case *ssa.Phi:
+					val, have = it.known[e]
+				}
+			}
+			fresh = append(fresh, struct {
+				ph *ssa.Phi
+				v  bool
+				ok bool
+			}{ph, val, have})
+		}
+		for _, f := range fresh {
+			if f.ok {
+				known[f.ph] = f.v
+			} else {
+				delete(known, f.ph)
+			}
 		}
 		succs := b.Succs
 		if len(b.Instrs) > 0 {
@@ -2016,27 +2076,22 @@ func reachesFlagAware(pred, start, target *ssa.BasicBlock) bool {
 				if u, isU := cond.(*ssa.UnOp); isU && u.Op.String() == "!" {
 					cond, neg = u.X, true
 				}
-				if ph, isPhi := cond.(*ssa.Phi); isPhi && ph.Block() == b {
-					for k, p := range b.Preds {
-						if p == e.from && k < len(ph.Edges) {
-							if cst, isC := ph.Edges[k].(*ssa.Const); isC && cst.Value != nil {
-								val := cst.Value.String() == "true"
-								if neg {
-									val = !val
-								}
-								if val {
-									succs = b.Succs[:1]
-								} else {
-									succs = b.Succs[1:2]
-								}
-							}
+				if ph, isPhi := cond.(*ssa.Phi); isPhi {
+					if val, have := known[ph]; have {
+						if neg {
+							val = !val
+						}
+						if val {
+							succs = b.Succs[:1]
+						} else {
+							succs = b.Succs[1:2]
 						}
 					}
 				}
 			}
 		}
 		for _, s := range succs {
-			work = append(work, edge{b, s})
+			work = append(work, item{b, s, known})
 		}
 	}
 	return false
